@@ -9,6 +9,26 @@ missed = {"C18-A": "pod lists had at most 7 pods (name sort needs >= 11)", "C18-
           "C16-B": "hash was only computed from raw text, never from a file", "C11-A": "only one configuration was applied per case (follow-up reload added)",
           "C15-A": "params had one non-empty value", "C12-B": "scrapes were strictly sequential (interleaved unit added)",
           "C06-A": "no fault removed a shard for good while a move was pending (scaleDown fault + directed move scenarios added)",
+          "C18-D": "every case built a fresh manager for a single ChangeScale call (sequences on one manager and outside scale changes added)",
+          "C16-D": "every hash came from a fresh ConfigManager (old -> new reload in one manager added)",
+          "C17-D": "a reload never changed the settings of a job it kept (job variants added)",
+          "C11-D": "no later configuration ever contained the job of the 'ghost' targets (follow-up addGhost added)",
+          "C04-C": "single cycles only: state kept inside the coordinator between cycles was invisible (2-3 cycle histories added)",
+          "C20-D": "metric relabel rules never changed between configuration loads",
+          "C13-C": "no API call was handled while a scrape was in flight (the scripted target now performs one before answering)",
+          "C13-D": "as C13-C (targets re-posted while the scrape is in flight)",
+          "C19-C": "differential runs covered one cycle (second cycle added; unassignable targets may now be unknown to the explorer)",
+          "C08-D": "first caught by C06 only; C08 itself judged single cycles (histories added)",
+          "C15-C": "every update delivered fresh group objects and no reload changed URL settings in between",
+          "C15-D": "label sets were far below 1 KiB (annotation-sized labels and per-label edits added)",
+          "C07-C": "generator rarely produced 'loaded shard whose targets fit nowhere in front of expired idle tail shards' (directed sub-generator added)",
+          "C02-C": "relabel rules never set a configured multi-valued param to one of its own later values",
+          "C02-D": "one discovery round per case (a second round in which the job's targets vanish added); also caught by C11's follow-up assignment",
+          "C12-C": "no failed gzip scrape preceded the interleaved scrapes",
+          "C12-D": "gzip bodies had a single member",
+          "C06-C": "the simulated Prometheus scraped what the sidecar's target manager held, not what the generated configuration file lists (real Injector wired in; 'assigned but not scraped' is now a stuck state)",
+          "C05-D": "caught by C10 after targets sharing scheme/host/path were added there; over the wire the early release again looks like correct behaviour of the coordinator (the sidecar reports a stale counter)",
+          "C01-C": "not a C01 matter: the posted lists are correct, the target is lost through a scale request that removes a shard in use, which is C07's clause and caught there",
           "C05-B": "still not caught by C05 itself: over the coordinator<->sidecar I/O the early release is indistinguishable from the duplicate rule; the root cause (sidecar keeps a stale in_transfer state) is caught by C10"}
 for f in sorted(glob.glob(os.path.join(os.path.dirname(__file__), "..", "seeded", "*", "meta.json"))):
     m = json.load(open(f))
